@@ -137,15 +137,33 @@ fn gen_patterns(rng: &mut Rng, snap: &Snapshot) -> Vec<String> {
 
 fn one_case(run: &Run, case: u64) {
     let mut rng = Rng::for_case(run.seed, case, 16);
-    let spec = gen_case_tree(&mut rng);
+    let mut spec = gen_case_tree(&mut rng);
+    // scale: every 20th case has two directories of 150-400 files of which a pattern excludes most
+    // but not all, so that whole index hunks consist (almost) only of excluded entries
+    let wide = case % 20 == 7;
+    if wide {
+        for dir in ["/build", "/out"] {
+            spec.insert(dir.into(), Node::dir());
+            let n = 150 + rng.below(250);
+            for i in 0..n {
+                let ext = if rng.chance(1, 20) { "c" } else { "o" };
+                spec.insert(format!("{dir}/u{i:03}.{ext}"), Node::file(gen_content(&mut rng, 3)));
+            }
+        }
+        run.count("cases_with_hundreds_of_entries", 1);
+    }
     let sc = Scratch::new("c15");
     let src = sc.join("src");
     tree::sync_to_disk(None, &spec, &src).expect("materialise");
     let snap = tree::snapshot(&src).expect("snapshot");
-    let pats = gen_patterns(&mut rng, &snap);
+    let mut pats = gen_patterns(&mut rng, &snap);
+    if wide {
+        pats.retain(|p| p.len() > 1 && !p.contains("build") && !p.contains("out"));
+        pats.insert(0, (*rng.pick(&["*.o", "/build/*.o", "u*.o", "**/*.o"])).to_string());
+    }
     let model = GlobModel::new(&pats);
     let replay = json!({"case": case, "patterns": pats});
-    let o = Opts { hunk: *rng.pick(&[2usize, 100_000]), block: 64, cap: 16 };
+    let o = Opts { hunk: if wide { *rng.pick(&[33usize, 64, 100]) } else { *rng.pick(&[2usize, 100_000]) }, block: 64, cap: 16 };
     run.eval();
     // oracle: omitted iff it or an ancestor matches
     let expected: Vec<String> = snap.keys().filter(|p| p.as_str() != "/" && !model.excluded(p)).cloned().collect();
@@ -263,9 +281,9 @@ pub fn run(tier: Tier, replay: Option<Value>) -> i32 {
     let run = Run::new("C15", "exploration", tier, replay);
     run.par_cases(tier.pick(3000, 300000), super::threads(), |c| one_case(&run, c));
     run.finish(
-        "generated trees (depth <= 4, names with extensions, upper/lower case, digits, non-ASCII) x sets of 1-4 (one case in twelve: 8-15) exclusion patterns instantiated from the tree: anchored file and directory paths, bare names, '*.ext', '?x', 'd/*/f', '**/n', 'd/**', '[ab]*', '[!a-z]*', 'é*', '/d/*', '/*.ext', '/*/name', 'dir?child' and 'dir[!a]child' (which must not match across the separator), '{a,b}' and '/{a,b}', '**/n/**', '/d/**/n', a name in the other case (must not match), 'c*' and '/c*', '**' glued to a name ('c**', '/c**', '**c'). Observed: (a) the paths stored by backup(exclude=E) decoded independently, (b) iter_entries(full backup, exclude=E), (c) the paths created by restore(full backup, exclude=E); all three must equal, below the root, the set given by the rule 'omitted iff the path or an ancestor matches a pattern' evaluated with globs the harness builds from the raw patterns (leading '/' anchors at the root, otherwise any depth). (d) list and restore of the full backup with the exclusions AND a subtree selection S (a directory the rule keeps) must give the part of that set at or below S. Non-trivial = some but not all paths excluded.",
+        "generated trees (depth <= 4, names with extensions, upper/lower case, digits, non-ASCII) x sets of 1-4 (one case in twelve: 8-15) exclusion patterns instantiated from the tree: anchored file and directory paths, bare names, '*.ext', '?x', 'd/*/f', '**/n', 'd/**', '[ab]*', '[!a-z]*', 'é*', '/d/*', '/*.ext', '/*/name', 'dir?child' and 'dir[!a]child' (which must not match across the separator), '{a,b}' and '/{a,b}', '**/n/**', '/d/**/n', a name in the other case (must not match), 'c*' and '/c*', '**' glued to a name ('c**', '/c**', '**c'). Every 20th case has two directories of 150-400 files, about 95% of which a '*.o'-like pattern excludes, stored in hunks of 33-100 entries. Observed: (a) the paths stored by backup(exclude=E) decoded independently, (b) iter_entries(full backup, exclude=E), (c) the paths created by restore(full backup, exclude=E); all three must equal, below the root, the set given by the rule 'omitted iff the path or an ancestor matches a pattern' evaluated with globs the harness builds from the raw patterns (leading '/' anchors at the root, otherwise any depth). (d) list and restore of the full backup with the exclusions AND a subtree selection S (a directory the rule keeps) must give the part of that set at or below S. Non-trivial = some but not all paths excluded.",
         &["globset's matcher is trusted for what a single glob matches; anchoring, ancestor propagation and the three code paths are what is checked"],
         None,
-        &[("observations_compared", 100), ("cases_excluding_some_but_not_all", 30), ("cases_excluding_a_directory_with_children", 10), ("subtree_and_exclude_combinations", 100)],
+        &[("observations_compared", 100), ("cases_excluding_some_but_not_all", 30), ("cases_excluding_a_directory_with_children", 10), ("subtree_and_exclude_combinations", 100), ("cases_with_hundreds_of_entries", 20)],
     )
 }
